@@ -501,12 +501,30 @@ func c12Child(t *testing.T) {
 	}
 	for ci := skip; ci < len(cases); ci++ {
 		c := cases[ci]
-		e.runCase(c,
-			func(i int) { fmt.Fprintf(prog, "P %d %d\n", ci, i) },
-			func(i int, ob *c12Obs) {
-				b, _ := json.Marshal(ob)
-				fmt.Fprintf(res, "O %d %d %s\n", ci, i, b)
-			})
+		// a reset races with the writes of the local side: cases built on one are tried up
+		// to three times, the first attempt that shows a problem is the one recorded
+		attempts := 1
+		if c.Mode != 0 {
+			attempts = 3
+		}
+		for a := 0; a < attempts; a++ {
+			if a > 0 {
+				fmt.Fprintf(res, "R %d\n", ci)
+			}
+			fine := true
+			e.runCase(c,
+				func(i int) { fmt.Fprintf(prog, "P %d %d\n", ci, i) },
+				func(i int, ob *c12Obs) {
+					if !(ob.Alive && ob.Responsive && ob.Bystander) {
+						fine = false
+					}
+					b, _ := json.Marshal(ob)
+					fmt.Fprintf(res, "O %d %d %s\n", ci, i, b)
+				})
+			if !fine {
+				break
+			}
+		}
 		fmt.Fprintf(res, "E %d\n", ci)
 	}
 	fmt.Fprintf(res, "D\n")
@@ -524,6 +542,7 @@ func c12RunBatch(t *testing.T, env verifEnv, bi int, cases []*c12Case) {
 	os.Remove(base + ".res")
 	os.Remove(base + ".prog")
 	skip := 0
+	parsed := 0 // lines of the result file already taken over
 	for attempt := 0; skip < len(cases) && attempt <= len(cases); attempt++ {
 		ctx, cancel := context.WithTimeout(context.Background(), time.Duration(90+3*(len(cases)-skip))*time.Second)
 		cmd := exec.CommandContext(ctx, os.Args[0], "-test.run", "^TestVerifC12$", "-test.timeout", "3000s", "-test.count=1")
@@ -543,11 +562,21 @@ func c12RunBatch(t *testing.T, env verifEnv, bi int, cases []*c12Case) {
 		if f, err := os.Open(base + ".res"); err == nil {
 			sc := bufio.NewScanner(f)
 			sc.Buffer(make([]byte, 1<<20), 1<<24)
+			ln := 0
 			for sc.Scan() {
 				line := sc.Text()
+				ln++
+				if ln <= parsed {
+					continue
+				}
+				parsed = ln
 				switch {
 				case line == "D":
 					done = true
+				case strings.HasPrefix(line, "R "):
+					if ci, _ := strconv.Atoi(line[2:]); ci < len(cases) {
+						cases[ci].Obs = nil
+					}
 				case strings.HasPrefix(line, "E "):
 					ci, _ := strconv.Atoi(line[2:])
 					ended[ci] = true
